@@ -201,6 +201,16 @@ def correspondence(ctx):
         for k in (1, 2, 6, 12):
             sk = b"".join((0x184D2A50 + j).to_bytes(4, "little") + (j % 3).to_bytes(4, "little") + bytes(j % 3) for j in range(k))
             comps.append((x, fb + sk, len(fb)))
+    # a VALID frame the library never writes: compressed blocks that are LARGER than what they regenerate (raw literals of 4600 bytes + an empty sequences
+    # section: 4604 bytes for 4600) - ZSTD_decompressionMargin budgets 3 bytes per block (known finding C06-margin-expanding-compressed-blocks)
+    def expanding(nblocks):
+        lit = bytes((j * 7 + 3) & 255 for j in range(4600))
+        body = ((3 << 2) | (4600 << 4)).to_bytes(3, "little") + lit + b"\x00"
+        blocks = b"".join((((len(body)) << 3) | (2 << 1) | (1 if k == nblocks - 1 else 0)).to_bytes(3, "little") + body for k in range(nblocks))
+        return lit * nblocks, b"\x28\xb5\x2f\xfd" + bytes([0x00, 0x11]) + blocks
+    expanding_frames = set()
+    for nb in (3, 50):
+        c_, f_ = expanding(nb); comps.append((c_, f_, len(f_))); expanding_frames.add(f_)
     for content, data, first in comps:
         lines.append("insp " + frames.hx(data)); dinfo.append(("insp", content, data, first))
         for delta in (0, 8, -1):
@@ -305,7 +315,8 @@ def correspondence(ctx):
                     continue
                 body = r.split(" ", 1)[1]
                 if body != w:
-                    ctx.violation("in-place decoding with the advertised margin%s failed: %s (expected %s)" % (d[0][7:], r, w), rep)
+                    ctx.violation("in-place decoding with the advertised margin%s failed: %s (expected %s)" % (d[0][7:], r, w), rep,
+                                  key="C06-margin-expanding-compressed-blocks" if data in expanding_frames else None)
             else:
                 if r.startswith("margin=") and r.split(" ", 1)[1].startswith("ok") and r.split(" ", 1)[1] != w:
                     ctx.violation("in-place decoding below the margin silently produced wrong data: %s" % r, rep)
